@@ -341,6 +341,26 @@ impl Prop for C01 {
                     s.cfg.k = 31;
                     s.gen.max_len = s.gen.max_len.max(6000);
                 }
+                // every tier: one run in 1500 (hashed over the workers) is LARGE - contigs of up
+                // to half a million bases, segments of 10 000..60 000 - because the cost of a
+                // simulated run is its scheduling points, not its bytes (about a second each)
+                if (i.wrapping_mul(0x9E37_79B9_7F4A_7C15) >> 33) % 1500 == 0 {
+                    let mut r = seed::Rng::new(rs ^ 0xB16);
+                    s.gen.n_samples = r.range(2, 4) as u32;
+                    s.gen.ref_contigs = r.range(1, 3) as u32;
+                    s.gen.max_len = *r.pick(&[120_000u32, 300_000, 500_000]);
+                    s.gen.tiny_pct = 0;
+                    s.gen.snp_permille = *r.pick(&[1u32, 5, 10]);
+                    s.gen.indel_permille = *r.pick(&[0u32, 1]);
+                    s.cfg.segment_size = *r.pick(&[10_000u32, 20_000, 60_000]);
+                    s.cfg.k = *r.pick(&[15u32, 21, 31]);
+                    s.cfg.queue_capacity = "2G".into();
+                    let nfiles = if s.cfg.single_file { 1 } else { s.gen.n_samples as usize };
+                    s.presentations.truncate(nfiles);
+                    while s.presentations.len() < nfiles {
+                        s.presentations.push(crate::gen::fasta::Presentation::plain());
+                    }
+                }
                 s
             })
             .collect();
